@@ -190,7 +190,50 @@ def r13_5(run):
            message='DEFAULT_VALUE is %r' % (const(dv) if dv is not None else None))
 
 
+def r13_6(run):
+    """removing a fixed prefix/suffix from reply text is done exactly: str.strip()/rstrip()/lstrip() take a
+    *set of characters*, so using them with a multi-character literal that the same function tests with
+    endswith()/startswith() eats into the value"""
+    ci = proto(run)
+    units = class_units(run.idx, ci) + [run.idx.unit(MOD + '.parse_keywords'), run.idx.unit(MOD + '.unquote')]
+    k = 0
+    for u in units:
+        lits = set()
+        for n in walk_unit(u):
+            if isinstance(n, ast.Call) and callee_attr(n) in ('endswith', 'startswith') and n.args and isinstance(const(n.args[0]), str):
+                lits.add(const(n.args[0]))
+        for n in walk_unit(u):
+            if isinstance(n, ast.Call) and callee_attr(n) in ('strip', 'rstrip', 'lstrip') and n.args:
+                a = const(n.args[0])
+                if isinstance(a, str) and len(a) > 1:
+                    k += 1
+                    bad = a in lits or len(set(a)) < len(a) or any(ch.isalnum() for ch in a)
+                    run.ob('R13.6', u, n, 'fixed text is removed exactly, not with a character-set strip', not bad, slot='strip-set@%s:%r' % (u.short, a),
+                           message='%s uses %s: strip-family methods remove any run of those characters, so a value ending in '
+                                   'one of them loses part of itself' % (u.short, src(n)[:50]))
+    # the OK terminator removal in _broadcast_response
+    bc = U(run, '_broadcast_response')
+    g = cfg_of(bc)
+    cut = [n for n in g.real_nodes() if n.kind == 'stmt' and isinstance(n.ast, ast.Assign) and assign_to(n.ast, 'resp') is not None and
+           any(lab == 'T' for _, lab in g.guarded_by(n, lambda t: isinstance(t, ast.Call) and dotted(t.func) == 'resp.endswith'))]
+    run.floor('R13.6', 'final-OK removal sites', len(cut), 1)
+    for n in cut:
+        v = assign_to(n.ast, 'resp')
+        tests = [t for t, lab in g.guarded_by(n, lambda t: isinstance(t, ast.Call) and dotted(t.func) == 'resp.endswith') if lab == 'T']
+        suffix = const(tests[0].ast.args[0]) if tests and tests[0].ast.args else None
+        ok = False
+        if isinstance(v, ast.Subscript) and dotted(v.value) == 'resp' and isinstance(v.slice, ast.Slice) and v.slice.lower is None:
+            up = v.slice.upper
+            cv = const(up)
+            ok = isinstance(suffix, str) and (cv == -len(suffix) or src(up) in ('-len(%r)' % suffix,))
+        elif isinstance(v, ast.Call) and dotted(v.func) == 'resp.removesuffix' and const(v.args[0]) == suffix:
+            ok = True
+        run.ob('R13.6', bc, n.ast, 'the final OK line is cut off by exactly the length of the tested suffix', ok, slot='ok-removal',
+               message='the reply terminator %r is removed with %s (not an exact cut of len(suffix) characters)' % (suffix, src(v)))
+
+
 RULES = [
+    ('R13.6', 'exact removal of fixed prefixes/suffixes (no character-set strip with the tested literal; final OK cut by len(suffix))', r13_6),
     ('R13.1', 'dot-unstuffing exists on the data-line path and precedes accumulation; terminator matched first', r13_1),
     ('R13.2', 'GETINFO wrappers request exactly the given keys and parse with key_hints = those keys', r13_2),
     ('R13.3', 'parse_keywords legs: sentinel only without "=", value = remainder, repeats accumulate in arrival order, final flush', r13_3),
@@ -201,6 +244,8 @@ RULES = [
 from ..selftest import M  # noqa: E402
 F = 'txtorcon/torcontrolprotocol.py'
 MUTANTS = [
+    M('rstrip-ok', F, "                resp = resp[:-3]", "                resp = resp.rstrip('\\nOK')", ['R13.6']),
+    M('cut-two', F, "                resp = resp[:-3]", "                resp = resp[:-2]", ['R13.6']),
     M('no-unstuffing', F, "        if line.startswith('.'):\n            line = line[1:]\n", "", ['R13.1']),
     M('unstuff-after-accumulate', F, "        if line.startswith('.'):\n            line = line[1:]\n        if self._wants_lines():\n            self.command[2](line)\n\n        else:\n            self.response += (line + '\\n')\n", "        if self._wants_lines():\n            self.command[2](line)\n\n        else:\n            self.response += (line + '\\n')\n        if line.startswith('.'):\n            line = line[1:]\n", ['R13.1']),
     M('no-key-hints', F, "        d.addCallback(parse_keywords, key_hints=args)", "        d.addCallback(parse_keywords)", ['R13.2']),
